@@ -108,6 +108,27 @@ def gen_c15(rng, n, thorough=False):
             steps.append({"op": rng.choice(["shutdown", "drop"])})
             steps.append(conn(nextc))
         scs.append(scenario(k, steps, max_sessions=maxs, tag="c15-random"))
+    # age order survives sessions that end by themselves: after some peers have closed and the free slots were refilled, a
+    # connection over the limit still evicts the OLDEST remaining session (and then the next oldest)
+    for maxs in (3, 4, 5):
+        for closed in ([0], [1], [0, 2], [maxs - 2]):
+            steps = [conn(c, SRCS4[c % len(SRCS4)]) for c in range(maxs)]
+            for c in closed:
+                steps.append(close(c))
+            nxt = maxs
+            for _ in closed:
+                steps.append(conn(nxt))
+                nxt += 1
+            alive = [c for c in range(maxs) if c not in closed] + list(range(maxs, nxt))
+            for _ in range(2):
+                steps.append(conn(nxt))
+                alive.pop(0)
+                alive.append(nxt)
+                nxt += 1
+                for c in alive:
+                    steps.append(req(c, req_read(3, 0, 1), 1))
+            steps.append({"op": "shutdown"})
+            scs.append(scenario(len(scs), steps, max_sessions=maxs, tag=f"c15-oldest-after-self-close-max{maxs}-closed{closed}"))
     # many sessions end in the same instant (more than the close-notification queue holds): none of them may keep
     # occupying a slot -- afterwards new connections up to the limit must not evict a healthy session
     for nclose in ((9, 14, 30) if thorough else (12, 30)):
